@@ -73,7 +73,7 @@ const char *call_kinds[] = {"scalar.tagged", "scalar.external", "scalar.chained"
                             "rle.rt",        "rleh.rt",         "elias.gamma",    "elias.delta",
                             "bp128.32",      "bp128.64",        "bp128d.32",      "bp128d.64",
                             "float.rt",      "adaptive.rt",     "adaptive.forced", "packed.slice",
-                            "bitstream.slice"};
+                            "bitstream.slice", "decode.bad"};
 
 Xform xform_of(const std::string &k, uint64_t enc) {
     if (k == "elias.gamma" || k == "elias.delta") return X_GE1;
@@ -371,6 +371,29 @@ uint64_t run_call(const Op &c, Shared &sh, int slice, int nslices) {
             d.u64(varintAdaptiveDecode(big.data(), out.data(), n, nullptr));
             d.bytes(out.data(), n * 8);
         }
+    } else if (k == "decode.bad") {
+        // the length-taking decoders on truncated / corrupted encodings: their failure exits are
+        // as much part of "stateless" as their success paths
+        Lib l;
+        size_t need = varintDictEncodedSize(in, n);
+        Priv<uint8_t> big(need + 64);
+        size_t w = varintDictEncode(big.data(), in, n);
+        size_t cut = w ? (c.u("cut", 3) % w) : 0;
+        size_t cnt = 0;
+        uint64_t *o = varintDictDecode(big.data(), cut, &cnt);
+        d.u64(o != nullptr);
+        if (o) alloc::release(o);
+        d.u64(varintDictDecodeInto(big.data(), cut, out.data(), n));
+        if (w > 2) {
+            big[w / 2] ^= 0xff;
+            d.u64(varintDictDecodeInto(big.data(), w, out.data(), n));
+        }
+        uint64_t tv = 0;
+        uint8_t tb[9];
+        size_t tw = varintTaggedPut64(tb, in[0]);
+        d.u64(varintTaggedGet(tb, (int32_t)(tw ? tw - 1 : 0), &tv));
+        d.u64(varintRLEGetRunCount(big.data(), cut));
+        d.u64(varintBP128GetCount(big.data(), cut ? 1 : 0));
     } else if (k == "packed.slice") {
         // slot-disjoint element range of one shared packed array (default 32-bit slots):
         // each slice is a whole number of slot periods
@@ -381,6 +404,7 @@ uint64_t run_call(const Op &c, Shared &sh, int slice, int nslices) {
         size_t slice_elems = per * 2;
         size_t total_bytes = (slice_elems * (size_t)nslices * (size_t)pc.bits + 7) / 8 + 16;
         if (total_bytes > sh.packed_bytes) return 0;
+        if (pc.max_elements && slice_elems * (size_t)nslices > (size_t)pc.max_elements) return 0; // beyond this instantiation's length type
         uint32_t base = (uint32_t)(slice_elems * (size_t)slice);
         uint64_t mask = pc.bits >= 64 ? ~0ULL : ((1ULL << pc.bits) - 1);
         Lib l;
@@ -414,7 +438,7 @@ class FiberEngine : public Engine {
     bool restart_after_violation() const override { return true; }
     unsigned cold_start_every() const override { return 32; }
     std::vector<std::string> fixed_args() const override {
-        return {"task", "in", "enc", "family", "precision", "mode", "cfg", "bits", "threshold", "id", "nometa"};
+        return {"task", "in", "enc", "family", "precision", "mode", "cfg", "bits", "threshold", "id", "nometa", "cut"};
     }
 
     Plan generate(uint64_t seed, Tier tier) override {
@@ -447,14 +471,14 @@ class FiberEngine : public Engine {
         p.set_knob("ntasks", std::to_string(ntasks));
         // which pass runs first: with "concurrent" the tasks meet library code that has
         // never run in this process (first-use initialisation) while they race
-        p.set_knob("first", r.chance(1, 6) ? "concurrent" : "alone");
+        p.set_knob("first", r.chance(1, 3) ? "concurrent" : "alone");
         p.set_knob("packed_cfg", std::to_string(r.below(1000)));
         for (size_t i = 0; i < ninputs; i++) {
             Op in;
             in.kind = "input";
             in.set("id", i);
             size_t n = r.chance(1, 2) ? r.range(1, 16) : r.range(1, 64);
-            if (r.chance(1, 12)) n = r.range(65, 400); // e.g. more than 256 dictionary entries, several BP128 blocks
+            if (r.chance(1, 8)) n = r.range(65, 400); // e.g. more than 256 dictionary entries, several BP128 blocks
             in.mkarr("values") = gen_array(r, n, (int)r.below(ARR_NCLASSES));
             p.ops.push_back(in);
         }
@@ -478,6 +502,7 @@ class FiberEngine : public Engine {
                 }
                 if (c.kind == "pfor.rt") c.set("threshold", r.chance(1, 2) ? 95 : (r.chance(1, 2) ? 90 : 99));
                 if (c.kind == "bitstream.slice") c.set("bits", r.below(64));
+                if (c.kind == "decode.bad") c.set("cut", r.below(4096));
                 if (r.chance(1, 3)) c.set("nometa", 1); // optional metadata outputs passed as NULL
                 p.ops.push_back(c);
             }
